@@ -579,6 +579,14 @@ def run(ctx, args):
         results += r2
         restarts += rs2
     ctx.log("real code: %d requests, %d harness restarts, %.1fs" % (len(reqs), restarts, time.time() - t_real))
+    default_limit = None
+    if not quick and any("crash" in r for r in results if r):
+        # once per thorough run: the same overflow under Go's default 1 GB stack limit (about 20 s)
+        env_default = go_env({"TMPDIR": ctx.scratch})
+        env_default.pop("C18_MAXSTACK", None)
+        rd, _ = serve(harness, [{"files": {"a": '{"inherits": ["a"]}'}, "seq": ["a"]}], env_default, per_req_timeout=600)
+        default_limit = rd[0].get("crash", "no-crash")
+        ctx.log("self-cycle under the default stack limit:", default_limit)
 
     # observations per (case, name): list of ('ok', cfg) | ('err', cls) | ('crash', kind)
     obs = {}
@@ -805,7 +813,7 @@ def run(ctx, args):
         "fields_never_decisive": sorted(set(kinds) - set(covered)),
         "cyclic_names_run_on_real_code": sum(len(c.get("risky_run", [])) for c in cases),
         "cyclic_names_total": sum(len(c["risky"]) for c in cases),
-        "process_deaths_observed": crash_hits, "harness_restarts": restarts,
+        "process_deaths_observed": crash_hits, "harness_restarts": restarts, "self_cycle_under_default_stack_limit": default_limit,
         "spec_failures_on_real_code": len(spec_failures),
         "correspondence_mismatches": len(corr_mismatch), "spec_validation_mismatches": len(specval_mismatch),
         "order_dependence": len(order_dep),
